@@ -150,11 +150,17 @@ Proof. induction n; simpl; auto. Qed.
 (* ------------------------------------------------------------------------------------
    Arithmetic helpers
    ------------------------------------------------------------------------------------ *)
+Lemma u32_wrapU : forall x, u32 x = wrapU 32 x.
+Proof. intros. unfold u32, wrapU. change 0xFFFFFFFF with (Z.ones 32). apply Z.land_ones. lia. Qed.
+
+Lemma u8_wrapU : forall x, u8 x = wrapU 8 x.
+Proof. intros. unfold u8, wrapU. change 0xFF with (Z.ones 8). apply Z.land_ones. lia. Qed.
+
 Lemma u32_small : forall x, 0 <= x < 2 ^ 32 -> u32 x = x.
-Proof. intros. unfold u32, wrapU. apply Z.mod_small. assumption. Qed.
+Proof. intros. rewrite u32_wrapU. unfold wrapU. apply Z.mod_small. assumption. Qed.
 
 Lemma u8_small : forall x, 0 <= x < 256 -> u8 x = x.
-Proof. intros. unfold u8, wrapU. apply Z.mod_small. change (2 ^ 8) with 256. assumption. Qed.
+Proof. intros. rewrite u8_wrapU. unfold wrapU. apply Z.mod_small. change (2 ^ 8) with 256. assumption. Qed.
 
 Lemma land_pow2 : forall a n, 0 <= n ->
   Z.land a (2 ^ n) = if Z.testbit a n then 2 ^ n else 0.
@@ -323,7 +329,7 @@ Proof.
         intros _. Z.div_mod_to_equations; lia.
       * cbn [e_a e_cx e_pre e_post e_ct e_c]. split; [reflexivity|]. split; [reflexivity|].
         exists (last + 1), (u8 (c / 524288)).
-        assert (Hv : 0 <= u8 (c / 524288) < 256) by (unfold u8, wrapU; change (2 ^ 8) with 256; apply Z.mod_pos_bound; lia).
+        assert (Hv : 0 <= u8 (c / 524288) < 256) by (rewrite u8_wrapU; unfold wrapU; change (2 ^ 8) with 256; apply Z.mod_pos_bound; lia).
         split; [reflexivity|]. split; [reflexivity|].
         split; [apply buf_ok_cons; [unfold is_byteP; lia | simpl; lia | exact Hbuf1]|].
         split; [right; reflexivity|].
